@@ -345,7 +345,8 @@ type Outcome struct {
 	Faults       map[string]int // fired faults per kind
 	Probes       map[string]int
 	Observations map[string]int
-	Events       *Hasher // event log hash: scheduling decisions, fault firings, results
+	Events       *Hasher // outcome log hash: fault firings and the result of every operation
+	Sched        *Hasher // the executed schedule in yield steps (differs legitimately when the code under test keeps process-global caches or pools: step counts then depend on what the process ran before)
 	Steps        int64
 	Switches     int64
 	SwitchPairs  map[[2]int32]int
@@ -354,7 +355,7 @@ type Outcome struct {
 }
 
 func NewOutcome() *Outcome {
-	return &Outcome{Faults: map[string]int{}, Probes: map[string]int{}, Observations: map[string]int{}, Events: NewHasher()}
+	return &Outcome{Faults: map[string]int{}, Probes: map[string]int{}, Observations: map[string]int{}, Events: NewHasher(), Sched: NewHasher()}
 }
 
 func (o *Outcome) Violate(oracle, class, format string, a ...any) {
